@@ -39,5 +39,10 @@ for sid in sys.argv[1:]:
                   'violation_lines': r.get('check_violation_lines'), 'messages': r.get('check_messages'),
                   'replay_excerpt': r.get('replay_excerpt', '')[:400], 'wall_s': r.get('check_wall_s')},
     }
+    if r.get('first_run') is not None:
+        # the same check BEFORE the checks were strengthened for this round (see DESIGN 14)
+        meta['check_first_run'] = r['first_run']
+    if os.environ.get('SEEDREPOCOMMIT'):
+        meta['repo_commit_the_patch_applies_to'] = os.environ['SEEDREPOCOMMIT']
     json.dump(meta, open(os.path.join(dst, 'meta.json'), 'w'), indent=1)
     print(sid, 'kept; detected =', r.get('detected'))
